@@ -15,7 +15,7 @@ Theorem C09_reusable : forall (ids : slots) (n : N), Inv ids -> in_range (cmax i
 Proof. exact closed_id_reusable. Qed.
 
 (* a wake-up for the closed channel that was already pending is ignored, not an error *)
-Theorem C09_stale_wakeup : forall (n : N) (c : core), n <> 0 -> alookup n (c_slots c) = None -> handle_event c (EvChan n) = (OOk, c, []).
+Theorem C09_stale_wakeup : forall (n : N) (c : core), n <> 0 -> alookup n (c_slots c) = None -> handle_event c (EvChan n) = (OOk, if c_high c <? out_len c then set_need c true else c, []).
 Proof. exact closed_slot_wakeup. Qed.
 
 (* and nothing in all this can panic the thread, in any state satisfying the invariant *)
@@ -37,7 +37,7 @@ Proof. vm_compute. repeat split. Qed.
 Check C09_effect : forall (n code : N) (text dbg : str) (c c' : core), steady c -> n <> 0 -> process c (FMethod n (MChanClose code text), dbg) = (OOk, c') -> alookup n (c_slots c') = None /\ c_ids c' = snd (remove n (c_ids c)) /\ c_out c' = ob_append (c_out c) (ser_chan_close_ok n) /\ c_phase c' = c_phase c /\ c_ch0 c' = c_ch0 c /\ (forall k : N, k <> n -> alookup k (c_slots c') = alookup k (c_slots c)).
 Check C09_isolation : forall (f : frame) (dbg : str) (c : core) (o : outcome) (c' : core), frame_chan f <> 0 -> process c (f, dbg) = (o, c') -> slots_off (frame_chan f) c c'.
 Check C09_reusable : forall (ids : slots) (n : N), Inv ids -> in_range (cmax ids) n -> fst (insert_some true n (snd (remove n ids))) = ROk n.
-Check C09_stale_wakeup : forall (n : N) (c : core), n <> 0 -> alookup n (c_slots c) = None -> handle_event c (EvChan n) = (OOk, c, []).
+Check C09_stale_wakeup : forall (n : N) (c : core), n <> 0 -> alookup n (c_slots c) = None -> handle_event c (EvChan n) = (OOk, if c_high c <? out_len c then set_need c true else c, []).
 Check C09_no_panic : forall (c : core) (f : dframe) (o : outcome) (c' : core), process c f = (o, c') -> WFs c -> (forall site : N, o <> OPanic site) /\ WFs c'.
 
 Print Assumptions C09_effect.
